@@ -21,6 +21,7 @@ EXPLANATION = (
     "NOT decided: that the solver returns a point satisfying the rows; simplicity of DAG paths and 'exactly k' follow from the rows."
     ' (R5, round 3) the remove-empty filters keep every route with at least one internal element (the smallest kept length is computed from the filter test; `> 1` is a violation).'
     ' (R7, hunt 4) negative entries of a weight superset are rejected.'
+    ' (R5, seeds 6) the greedy route of kFlowDecomp publishes one weight per path also when it pads to k (C02.R4).'
 )
 DECIDED = ["path/walk-shape constraints present and complete", "synthetic endpoints never reach a public return value",
            "no graph is augmented twice", "node-mode results are condensed before they are published", "per-path lists stay in lock-step"]
@@ -92,6 +93,10 @@ def check(prog: Program, rep):
     ns.node_results_condensed(prog, rep, "C01.R4")
     rep.rule("C01.R5", "arity of per-path lists", floor=10)
     ns.arity_rule(prog, rep, "C01.R5")
+    # one weight per path also on the greedy route of kFlowDecomp (C02.R4: what is published, and how the two lists are padded to k)
+    from rules.c02 import greedy_publishes as _gp
+    from rules.common import RuleProxy as _RPg
+    _gp(prog, _RPg(rep, "C01.R5"), "C02.R4")
     rep.rule("C01.R7", "never more than k paths: under given weights the cap on non-empty paths is the caller's k", floor=3)
     from rules.providers import original_k_provider
     original_k_provider(prog, rep, "C01.R7", ["kFlowDecomp", "kLeastAbsErrors", "kMinPathError"])
